@@ -150,9 +150,51 @@ def enum_cases(tier):
                     yield shp, e1, e2, True
 
 
+def hazard_probe(ctx, rng, seed=None):
+    """Schedules and faults around correct inputs: (a) four threads of one interpreter computing holospectra of same-shaped,
+    different recordings at once must each get what they get alone; (b) a call abandoned at an arbitrary statement (what Ctrl-C,
+    a MemoryError or a raising log handler do) must leave nothing behind: the next valid call of the same shape is compared with
+    its result in a clean session."""
+    from emd import spectra as SP
+    from ..monitors import run_in_threads, abort_then_call
+    seed = int(rng.integers(1 << 30)) if seed is None else seed
+    r = np.random.default_rng(seed)
+    T, M, K = int(gens.pick(r, [12, 200, 3000])), int(r.integers(1, 3)), int(r.integers(1, 4))
+    e1, _ = SP.define_hist_bins(1.0, 20.0, int(r.integers(2, 21)))
+    e2, _ = SP.define_hist_bins(.2, 4.0, int(r.integers(2, 17)))
+    squash = gens.pick(r, [False, False, 'sum', 'mean'])
+    mode = gens.pick(r, ['energy', 'amplitude'])
+    case = {'kind': 'hazard', 'seed': seed}
+
+    def make(s):
+        q = np.random.default_rng([seed, s])
+        args = (q.uniform(0, 22, (T, M)), q.uniform(0, 4.5, (T, M, K)), q.uniform(.1, 3, (T, M, K)))
+        return lambda: SP.holospectrum(*args, e1, e2, mode=mode, squash_time=squash)
+    calls = [make(s) for s in range(4)]
+    made, bad = run_in_threads(calls, 60 if T <= 200 else 12)
+    ctx.count('concurrent_thread_calls', made)
+    ctx.case(digest('threads', seed), True)
+    if bad:
+        ctx.violation('threads', 'holospectrum called from 4 threads at once on same-shaped recordings (%d x %d x %d, squash_time=%s): %s'
+                      % (T, M, K, squash, bad[0]), case)
+        return
+    clean = calls[1]()
+    nlines, outs = abort_then_call(('emd/spectra.py', 'emd/support.py'), calls[0], calls[1], 16, r)
+    ctx.count('aborted_calls_followed_by_a_valid_call', len(outs))
+    ctx.maxi('statements_in_one_call', nlines)
+    for where, got in outs:
+        if isinstance(got, Exception) or not np.array_equal(got, clean):
+            ctx.violation('state-left-by-aborted-call', 'after a holospectrum call was abandoned at %s:%d (%s), the next valid call %s'
+                          % (where[0].rsplit('/', 1)[-1], where[2], where[1],
+                             'raised %s' % type(got).__name__ if isinstance(got, Exception) else 'returned a different spectrum than in a clean session'), case)
+            return
+
+
 def run_shard(ctx):
     from emd import spectra as SP
     rng = ctx.rng
+    for _ in range(3):
+        hazard_probe(ctx, rng)
     n = NRANDOM[ctx.tier] // ctx.nshards
     for i in range(n):
         if ctx.out_of_time():
@@ -185,7 +227,7 @@ def run_shard(ctx):
             infr, infr2 = infr.astype(np.float32), infr2.astype(np.float32)
         infr, l1 = gens.relayout(rng, infr)
         infr2, l2 = gens.relayout(rng, infr2)
-        inam2, l3 = gens.relayout(rng, inam2)
+        inam2, l3 = gens.relayout(rng, inam2, native=True)   # (scipy.sparse refuses non-native byte order: not the property's business)
         ctx.count('layout:%s/%s/%s' % (l1, l2, l3))
         ctx.count('freq_dtype:%s' % infr.dtype)
         case = {'kind': 'holo', 'infr': infr, 'infr2': infr2, 'inam2': inam2, 'e1': e1, 'e2': e2, 'mode': mode,
@@ -230,6 +272,8 @@ def finalize(agg, tier):
 
 
 def replay(ctx, case):
+    if case['kind'] == 'hazard':
+        return hazard_probe(ctx, None, seed=case['seed'])
     f = lambda k: np.asarray(case[k], float)
     infr, infr2, inam2 = f('infr').astype(case.get('freq_dtype', 'float64')), f('infr2').astype(case.get('freq_dtype', 'float64')), f('inam2')
     if case.get('layouts'):
